@@ -13,6 +13,7 @@
 #include <dispenso/spsc_ring_buffer.h>
 
 #include <algorithm>
+#include <array>
 #include <atomic>
 #include <map>
 #include <memory>
@@ -773,6 +774,21 @@ static void genC33(Rng& r, KV& kv, const Opts&) {
   kv.setu("mp", 600000);
   kv.setu("fp", 400000);
 }
+template <typename X>
+struct FixedList { // up to 16 over-aligned entries in aligned heap storage
+  Aligned<std::array<X, 16>> a;
+  size_t n = 0;
+  void push_back(const X& x) {
+    if (n < 16)
+      (*a)[n++] = x;
+  }
+  X* begin() {
+    return a->data();
+  }
+  X* end() {
+    return a->data() + n;
+  }
+};
 template <typename Traits>
 static void runC33T(Case& c) {
   using Vec = dispenso::ConcurrentVector<Big, Traits>; // 264-byte elements: first bucket of 1-2, every few elements cross a bucket
@@ -792,12 +808,17 @@ static void runC33T(Case& c) {
     bool tagged;
   };
   std::vector<std::vector<Range>> ranges((size_t)T);
-  std::vector<std::vector<std::pair<long, typename Vec::iterator>>> atLeastIts((size_t)T);
+  // (the pointer-based iterators are over-aligned: in C++14 they must not live in std::vector's storage)
   struct EndSnap {
     long sizeBefore, sizeAfter;
     typename Vec::iterator b, e;
   };
-  std::vector<std::vector<EndSnap>> endSnaps((size_t)readers);
+  struct AtLeast {
+    long first;
+    typename Vec::iterator second;
+  };
+  FixedList<AtLeast> atLeastIts[4];
+  FixedList<EndSnap> endSnaps[2];
   std::vector<std::thread> th;
   for (long t = 0; t < T; ++t) {
     auto ops = splitOps(c.p.s("ops" + std::to_string(t)));
@@ -846,7 +867,7 @@ static void runC33T(Case& c) {
           totalGrowth.fetch_add(k);
         } else { // grow_to_at_least
           auto it = v.grow_to_at_least((size_t)k);
-          atLeastIts[(size_t)t].push_back(std::make_pair(k, it)); // checked after all threads joined
+          atLeastIts[(size_t)t].push_back(AtLeast{k, it}); // checked after all threads joined
           long m = maxAtLeast.load();
           while (k > m && !maxAtLeast.compare_exchange_weak(m, k)) {
           }
